@@ -116,10 +116,14 @@ def run(ctx):
             paths = None
         ok, why = False, "no path evaluates the call"
         if paths is not None:
+            verdicts = []
             for p in paths:
                 for (k, args, blk) in p.effects:
                     if blk == bi:
-                        ok, why = _is_filtered_matches(F, args[3], b)
+                        verdicts.append(_is_filtered_matches(F, args[3], b))
+            if verdicts:      # EVERY path that evaluates the call must pass a filtered vector
+                bad_v = [v for v in verdicts if not v[0]]
+                ok, why = (False, bad_v[0][1]) if bad_v else (True, verdicts[0][1])
         else:
             # big coroutine bodies: fall back to provenance of the argument
             s = Slice(F, b, through_calls=True).operand(t["args"][3])
@@ -166,10 +170,42 @@ def run(ctx):
                               "next_index can drop below match_index + 1: %s" % sym_show(v), "%s:%s" % (un.file, un.line))
     # writers of match_index
     mw = F.callers_of(lambda k: strip_generics(k).endswith("LeaderState::update_match_index") or strip_generics(k).endswith("RaftRoleState::update_match_index"))
+    mw = [x for x in mw if not re.search(r"(_test|/tests?/|test_utils|mock)", F.bodies[x[1]].file or "")]
     wfn = sorted(set(fkey(x[0]) for x in mw))
+    # who may write match_index: each production caller of update_match_index passes either the constant 0 (initialisation of a
+    # new peer) or the match index of a follower's own response (PeerUpdate.match_index); anything else (the leader's own last
+    # index, a sent-but-unacknowledged index) lets the leader commit entries no follower holds
+    ctx.floor("C09-c", len(mw), 2, "production call sites of update_match_index (init + update_peer_index)")
+    for (croot, cbid, cbi, ct) in mw:
+        cb = F.bodies[cbid]
+        if strip_generics(croot).endswith("RaftRoleState::update_match_index") or strip_generics(croot).endswith("RaftRole::update_match_index"):
+            continue     # the delegating wrappers: their callers are in the list too
+        vs = Slice(F, cb).operand(ct["args"][2]) if len(ct["args"]) > 2 else None
+        zero = vs is not None and vs.consts() == ["0"] and not any(x[0] in ("call", "field", "param", "binop") for x in vs.sources)
+        resp = vs is not None and vs.has_field("PeerUpdate", "match_index")
+        fwd = vs is not None and any(x[0] == "param" for x in vs.sources) and not any(x[0] in ("call", "field", "binop") for x in vs.sources)
+        ctx.check("C09-c", "%s#update_match_index#value-source" % fkey(croot), zero or resp or fwd,
+                  "match_index written with %s" % ("0 (new peer)" if zero else ("the response's PeerUpdate.match_index" if resp else "its own parameter (wrapper)")),
+                  "match_index is written with a value that is neither 0 nor a follower-reported match index: %s" % sorted(x for x in (vs.sources if vs else []) if x[0] in ("call", "field"))[:5],
+                  loc(cb, cbi))
+    # ... and the map itself is mutated nowhere else
+    others = []
+    for bid, b in F.bodies.items():
+        if b.crate != "d_engine_core" or re.search(r"(_test|/tests?/|test_utils|mock)", b.file or ""):
+            continue
+        if re.search(r"^LeaderState::(update_match_index|new|from)$", fkey(F.root_of[bid])):
+            continue
+        for (bi, t) in field_receiver_calls(F, b, "LeaderState", "match_index", r"HashMap::(insert|entry|get_mut|remove|clear|retain|drain|iter_mut|values_mut)$"):
+            others.append((b, bi, fkey(F.root_of[bid]), strip_generics(callee_key(t)).split("::")[-1]))
+    allowed_other = {"remove": "a removed peer's slot is dropped", "retain": "removed peers' slots are dropped", "clear": "step-down / re-election resets the map"}
+    for (b, bi, fk, m) in others:
+        ctx.check("C09-c", "%s#match_index.%s#who-may-write" % (fk, m), m in allowed_other,
+                  "match_index.%s: %s" % (m, allowed_other.get(m, "")),
+                  "LeaderState.match_index is mutated (%s) outside update_match_index: the `new > current` / value-source rules do not see this write" % m, loc(b, bi))
     up = ctx.anchor(F.method, "LeaderState", "update_peer_index")
     if up:
         mb = F.main_body(up)
+        ctx.floor("C09-c", len(calls_matching(mb, r"LeaderState::update_match_index$")), 1, "update_match_index call in update_peer_index")
         for (bi, t) in calls_matching(mb, r"LeaderState::update_match_index$"):
             s = Slice(F, mb).operand(t["args"][2])
             ctx.check("C09-c", "%s#match-from-response" % fkey(up), s.has_field("PeerUpdate", "match_index") and len([x for x in s.sources if x[0] == "field" and x[2] not in ("match_index", "0")]) == 0,
@@ -177,6 +213,7 @@ def run(ctx):
     hs = ctx.anchor(F.method, "ReplicationHandler", "handle_success_response")
     if hs:
         mb = F.main_body(hs)
+        ctx.floor("C09-c", len(agg_sites(mb, "PeerUpdate")), 1, "PeerUpdate construction in handle_success_response")
         for (bi, si, st) in agg_sites(mb, "PeerUpdate"):
             s = Slice(F, mb).operand(agg_field(st, "match_index"))
             ctx.check("C09-c", "%s#PeerUpdate.match_index" % fkey(hs), s.has_field("SuccessResult", "last_match") and not s.has_field("AppendEntriesRequest", "entries"),
@@ -184,6 +221,7 @@ def run(ctx):
     hc = ctx.anchor(F.method, "ReplicationHandler", "handle_conflict_response")
     if hc:
         mb = F.main_body(hc)
+        ctx.floor("C09-c", len(agg_sites(mb, "PeerUpdate")), 1, "PeerUpdate construction in handle_conflict_response")
         for (bi, si, st) in agg_sites(mb, "PeerUpdate"):
             o = agg_field(st, "match_index")
             s = Slice(F, mb).operand(o)
@@ -215,14 +253,49 @@ def run(ctx):
                 why = "own last index only under cluster_metadata.single_voter, otherwise calculate_new_commit_index"
             ctx.check("C09-d", "%s#commit-value[%d]" % (fkey(lf), n), ok, why,
                       "leader commit index advanced with a value that is neither a majority result nor the single-voter case: %s" % sorted(x for x in s.sources if x[0] == "call")[:6], loc(mb, bi))
-    for nm in ("init_cluster_metadata", "update_cluster_metadata"):
-        for b in [x for x in F.find(r"LeaderState.*::%s$" % nm) if x.parent is None]:
-            mbb = F.main_body(b)
-            for (bi, si, st) in agg_sites(mbb, "ClusterMetadata"):
-                o = agg_field(st, "single_voter")
-                s = Slice(F, mbb).operand(o)
-                ctx.check("C09-d", "%s#single_voter" % fkey(b), s.has_call(r"Membership::voters$") and "1" in s.consts() and ("binop", "Eq") in s.sources,
-                          "single_voter = (voters().len() + 1 == 1)", "single_voter does not derive from Membership::voters(): %s" % sorted(s.sources)[:6], loc(mbb, bi))
+    single_voter_sites(ctx, "C09-d")
+
+
+def single_voter_sites(ctx, rule):
+    """EVERY place that gives ClusterMetadata.single_voter a value (aggregate constructions anywhere in d_engine_core, and direct
+    writes of the field): the value is the constant false (placeholder before init_cluster_metadata) or (voters().len() + 1 == 1)
+    computed from the live Membership::voters()"""
+    F = ctx.F
+    n = 0
+    seen_keys = {}
+    for (b, bi, si, st) in all_agg_sites(F, "leader_state::ClusterMetadata", None, crates=("d_engine_core",)):
+        if re.search(r"(_test|/tests?/|test_utils|mock)", b.file or ""):
+            continue
+        o = agg_field(st, "single_voter")
+        if o is None:
+            continue
+        s = Slice(F, b).operand(o)
+        if s.has_field("ClusterMetadata", "single_voter") and not any(x[0] in ("binop", "const") for x in s.sources):
+            continue     # a copy of an existing ClusterMetadata (derived Clone)
+        n += 1
+        const_false = ("c" in o and str(o.get("v", o["c"])) in ("false", "0")) or (s.consts() in (["false"], ["0"]) and not any(x[0] in ("call", "field", "param", "binop") for x in s.sources))
+        live = s.has_call(r"Membership::voters$") and "1" in s.consts() and ("binop", "Eq") in s.sources
+        root = F.root_of[b.id]
+        key = "%s#single_voter" % fkey(root)
+        seen_keys[key] = seen_keys.get(key, -1) + 1
+        if seen_keys[key]:
+            key += "[%d]" % seen_keys[key]
+        ctx.check(rule, key, const_false or live,
+                  "single_voter = false (placeholder)" if const_false else "single_voter = (voters().len() + 1 == 1)",
+                  "ClusterMetadata.single_voter is neither the constant false nor derived from Membership::voters(): %s - a leader that believes it is the only voter "
+                  "commits on its own flush" % sorted(x for x in s.sources if x[0] in ("call", "field", "const"))[:6], loc(b, bi))
+    for bid, b in F.bodies.items():
+        if b.crate != "d_engine_core" or re.search(r"(_test|/tests?/|test_utils|mock)", b.file or ""):
+            continue
+        for (bi, si, st) in writes_to_field(b, "ClusterMetadata", "single_voter"):
+            pl = st["lhs"] if si != "term" else st["dest"]
+            last = pl.get("pj", [])[-1] if pl.get("pj") else None
+            if not (isinstance(last, dict) and last.get("f") == "single_voter"):
+                continue
+            n += 1
+            ctx.bad(rule, "%s#single_voter#direct-write" % fkey(F.root_of[bid]), "ClusterMetadata.single_voter is written directly (outside a ClusterMetadata construction): "
+                    "UNRECOGNISED-FORM, the rule cannot tell where the value comes from", loc(b, bi))
+    ctx.floor(rule, n, 3, "places that give ClusterMetadata.single_voter a value (init/update_cluster_metadata, From<&CandidateState>)")
 
 
 def _always_inserts(F, fn, field, depth=0):
